@@ -39,7 +39,7 @@ IO = 'chainables.io'
 
 
 def run(ctx: Ctx):
-  for r in (r1, r2, r3, r4, r6, r8, r9, r10, r11, r12, r14, r15, r16, r17, r19):
+  for r in (r1, r2, r3, r4, r6, r8, r9, r10, r11, r12, r14, r15, r16, r17, r19, r20):
     ctx.guard(r)
   from mlmverif.props import c12
   ctx.include('R-C10-18', '"continues with exactly the elements not yet delivered", for a pipeline that skips unreadable records: a'
@@ -1040,12 +1040,45 @@ def r19(ctx: Ctx):
   ctx.floor(rule, 4, n)
 
 
+def r20(ctx: Ctx):
+  rule = 'R-C10-20'
+  ctx.rule(rule, '"restoring from the captured state yields exactly the elements not yet delivered ... for sharded and nested-sharded'
+           ' sources": from_state rebuilds the source the STATE describes, whatever shard the restoring object happens to be.'
+           ' In the from_state methods of io.py the state parameter is never re-bound (no `state = dc.replace(self._shard_state,'
+           ' start_index=state.start_index)`): keeping the restorer\'s own shard index / count continues ANOTHER shard from'
+           ' the recorded position')
+  mi = ctx.repo.module('chainables.io')
+  n = 0
+  for ci in mi.classes.values():
+    fi = ci.methods.get('from_state')
+    if fi is None:
+      continue
+    ps = fi.params()[1:]
+    if not ps:
+      continue
+    p_ = ps[0]
+    n += 1
+    rebinds = [x for x in walk_no_nested(fi.node) if isinstance(x, (ast.Assign, ast.AugAssign, ast.AnnAssign)) and any(
+        isinstance(t, ast.Name) and t.id == p_ for t in (x.targets if isinstance(x, ast.Assign) else [x.target]))]
+    what = f'{ci.name}.from_state: the captured state is applied as given'
+    if rebinds:
+      ctx.fail(rule, fi, what,
+               f'`{unparse(rebinds[0])[:80]}` replaces the captured state by one derived from the restoring object: a checkpoint of'
+               ' one shard restored through another shard\'s source continues that other shard', node=rebinds[0])
+    else:
+      ctx.ok(rule, fi, what, fi.node)
+  ctx.floor(rule, 3, n)
+
+
 from mlmverif.selfcheck import B, OK  # noqa: E402
 
 _F = 'chainables/io.py'
 _T = 'chainables/transform.py'
 _U = 'utils/iter_utils.py'
 VARIANTS = [
+    B('sharded-iterable-keeps-its-own-shard-on-restore', 'chainables/io.py',
+      "  def from_state(self, shard_state: ShardConfig) -> Self:\n    return dc.replace(self, _shard_state=shard_state)",
+      "  def from_state(self, shard_state: ShardConfig) -> Self:\n    if self._shard_state.num_shards > 1:\n      shard_state = dc.replace(self._shard_state, start_index=shard_state.start_index)\n    return dc.replace(self, _shard_state=shard_state)", 'R-C10-20'),
     OK('restored-flag-through-a-local', 'chainables/transform.py',
        "        with_agg_result=self._with_agg_result,\n        # Only its truthiness is used", "        with_agg_result=bool(self._with_agg_result),\n        # Only its truthiness is used"),
     B('restored-iterator-drops-its-aggregate-result-flag', 'chainables/transform.py',
